@@ -160,8 +160,19 @@ func (g *gen) cond(e env) zn.Expr {
 		return []zn.Expr{numE(1), &zn.Str{V: "真"}, &zn.NullLit{}, numE(0)}[g.pick(4, "nb")]
 	default:
 		op := []string{"<", ">", "==", "/=", "<=", ">="}[g.pick(6, "cop")]
-		return &zn.Bin{Op: op, L: g.intExpr(e), R: g.intExpr(e)}
+		return &zn.Bin{Op: op, L: g.observed(g.intExpr(e)), R: g.intExpr(e)}
 	}
+}
+
+// observed - half of the time the operand goes through 测, which displays a line: every
+// evaluation of a condition (and only an evaluation) then shows in the trace
+func (g *gen) observed(x zn.Expr) zn.Expr {
+	if g.pick(2, "observe") == 0 {
+		return x
+	}
+	g.marker++
+	g.labels["observed-condition"] = true
+	return &zn.Call{Name: "测", Args: []zn.Expr{&zn.Str{V: fmt.Sprintf("c%d", g.marker)}, x}}
 }
 
 func (g *gen) block(e env, budget int) []zn.Stmt {
@@ -235,7 +246,7 @@ func (g *gen) stmt(e env, budget int) []zn.Stmt {
 		g.labels["while"] = true
 		return []zn.Stmt{
 			&zn.Let{Names: []string{cnt}, E: numE(0)},
-			&zn.While{Cond: &zn.Bin{Op: "<", L: &zn.Var{Name: cnt}, R: numE(float64(limit))}, Body: body},
+			&zn.While{Cond: &zn.Bin{Op: "<", L: g.observed(&zn.Var{Name: cnt}), R: numE(float64(limit))}, Body: body},
 		}
 	case "each":
 		inner.loop = "each"
@@ -312,6 +323,10 @@ func (g *gen) stmt(e env, budget int) []zn.Stmt {
 
 func (g *gen) program() *zn.Program {
 	p := &zn.Program{}
+	p.Body = append(p.Body, &zn.FuncDef{Name: "测", Params: []string{"标", "值"}, Body: []zn.Stmt{
+		&zn.ExprStmt{E: &zn.Call{Name: "显示", Args: []zn.Expr{&zn.Str{V: "test"}, &zn.Var{Name: "标"}, &zn.Var{Name: "值"}}}},
+		&zn.Return{E: &zn.Var{Name: "值"}},
+	}})
 	nf := g.pick(3, "nfuncs")
 	maxB := h.Scale(3, 4)
 	for i := 0; i < nf; i++ {
